@@ -50,6 +50,33 @@ ssize_t getrandom(void *buf, size_t len, unsigned flags) {
     return (ssize_t)len;
 }
 
+/* Environment variables: with FAKE_ENV_VALUE set, every variable the program asks for by name has that value,
+ * except the shim's own FAKE_* variables and the ones the language runtimes and the C library consult themselves. */
+#include <dlfcn.h>
+#include <string.h>
+static int runtime_var(const char *n) {
+    static const char *pre[] = {"FAKE_", "RUST_", "RUSTC_", "CARGO", "LD_", "MALLOC_", "GLIBC_", "LC_", "LANG", "TZ", "HOME", "PATH", "TMPDIR", "TERM",
+                                "USER", "SHELL", "PWD", "HOSTNAME", "NO_COLOR", "CLICOLOR", "COLORTERM", "LOGNAME", "MAIL", "OLDPWD", "SHLVL", "_", NULL};
+    for (int i = 0; pre[i]; i++)
+        if (strncmp(n, pre[i], strlen(pre[i])) == 0)
+            return 1;
+    return 0;
+}
+char *getenv(const char *name) {
+    static char *(*real)(const char *) = 0;
+    if (!real)
+        real = (char *(*)(const char *))dlsym(RTLD_NEXT, "getenv");
+    if (name && !runtime_var(name)) {
+        char *v = real ? real("FAKE_ENV_VALUE") : 0;
+        if (v)
+            return v;
+    }
+    return real ? real(name) : 0;
+}
+char *secure_getenv(const char *name) {
+    return getenv(name);
+}
+
 int getentropy(void *buf, size_t len) {
     return getrandom(buf, len, 0) == (ssize_t)len ? 0 : -1;
 }
